@@ -172,7 +172,13 @@ fn run_ops(cfg: &fastcgi_server::Config, full: &[u8], gate0: usize, ops: &[Vec<u
                     p.consume_output(o.len());
                     (o, 0)
                 } else if a2 == 2 {
-                    (Vec::new(), 5)
+                    // off a record boundary the conversion is refused (the parser is consumed by the attempt: the run ends)
+                    let l = p.output_buffer().len();
+                    p.consume_output(l);
+                    assert!(matches!(p.into_request_parser(), Err(parser::Error::Interrupted)), "conversion off a record boundary must be refused");
+                    res.push(vec![7, 5]);
+                    res.push(Vec::new());
+                    return;
                 } else {
                     to_boundary(&mut p, wire, &mut pos)
                 };
